@@ -589,7 +589,7 @@ func (r *c36Run) one(rt *rapid.T, variants []worldgen.Variant) {
 		case P.BaseFeePerGas.Cmp(nextBase) != 0:
 			fail("base fee %v, expected %v", P.BaseFeePerGas, nextBase)
 		case P.ExcessBlobGas == nil || *P.ExcessBlobGas != excess:
-			fail("excess blob gas %v, expected %d", P.ExcessBlobGas, excess)
+			fail("excess blob gas differs from the expected %d", excess)
 		}
 		for i, wd := range wds {
 			if *P.Withdrawals[i] != *wd {
@@ -641,7 +641,11 @@ func (r *c36Run) one(rt *rapid.T, variants []worldgen.Variant) {
 			fail("%d blobs, the maximum is %d", nblobs, maxBlobs)
 		}
 		if P.BlobGasUsed == nil || *P.BlobGasUsed != uint64(nblobs)*params.BlobTxBlobGasPerBlob {
-			fail("blob gas used %v for %d blobs", P.BlobGasUsed, nblobs)
+			got := "nil"
+			if P.BlobGasUsed != nil {
+				got = fmt.Sprint(*P.BlobGasUsed)
+			}
+			fail("blob gas used %s for %d blobs", got, nblobs)
 		}
 		if envelope.BlobsBundle != nil && len(envelope.BlobsBundle.Blobs) != nblobs {
 			fail("blobs bundle has %d blobs, the transactions reference %d", len(envelope.BlobsBundle.Blobs), nblobs)
